@@ -23,13 +23,23 @@ func main() {
 		fmt.Fprintln(os.Stderr, "translator change:", err)
 		os.Exit(1)
 	}
-	el := [][2]string{{"ID", "e_id"}, {"Version", "e_ver"}, {"Visible", "e_vis"}}
+	// an element is (kind, id, version, visible, payload): kind and payload have no Go field
+	el := [][2]string{{"#kind", "e_kind"}, {"ID", "e_id"}, {"Version", "e_ver"}, {"Visible", "e_vis"}, {"#payload", "e_pay"}}
+	none := map[string]string{"OSM": "None", "Old": "None", "New": "None"}
 	cfg := &tr.LCfg{
 		Structs: map[string]*tr.StructMap{
-			"Node":     {Coq: "elem", Ctor: "", Fields: el},
-			"Way":      {Coq: "elem", Ctor: "", Fields: el},
-			"Relation": {Coq: "elem", Ctor: "", Fields: el},
+			"Node":     {Coq: "elem", Ctor: "mkElem", Fields: el},
+			"Way":      {Coq: "elem", Ctor: "mkElem", Fields: el},
+			"Relation": {Coq: "elem", Ctor: "mkElem", Fields: el},
+			"Action": {Coq: "action", Ctor: "mkAction", Defaults: none,
+				Fields: [][2]string{{"Type", "a_type"}, {"OSM", "a_osm"}, {"Old", "a_old"}, {"New", "a_new"}}},
+			// *osm.OSM: read as a section (o.Nodes ...), written as the one element it holds (osm_lit)
+			"OSM": {Coq: "section", Ctor: "osm_lit", Defaults: map[string]string{"Nodes": "[]", "Ways": "[]", "Relations": "[]"},
+				Fields: [][2]string{{"Nodes", "s_nodes"}, {"Ways", "s_ways"}, {"Relations", "s_rels"}}},
+			"Change": {Coq: "gchange", Fields: [][2]string{{"Create", "gc_create"}, {"Modify", "gc_modify"}, {"Delete", "gc_delete"}}},
 		},
+		Types:   map[string]string{"ActionType": "atype"},
+		Globals: map[string]string{"osm.ActionCreate": "TCreate", "osm.ActionModify": "TModify", "osm.ActionDelete": "TDelete"},
 	}
 	fp := func(key, name, elemVar, call, listVar string) *tr.LFunc {
 		return &tr.LFunc{Key: key, Name: name, Result: "fpg_res",
@@ -56,11 +66,50 @@ func main() {
 			Atoms:      map[string]string{"err == nil": "a_err_nil", "ds.NotFound(err)": "a_not_found"},
 			Returns:    map[string]string{"nil": "CE_Nil", "&NoVisibleChildError{ID: id}": "CE_NoVisible", "err": "CE_Same"}},
 	}
+	// addUpdate: the data source is the parameter a_ds, ds.NotFound on the typed error a_nft
+	prev := func(fn, v string) (string, string) {
+		return fn + "(ctx, " + v + ", ds, ignoreMissing)", "(fp_pair (find_previous_elem a_ds a_ignoreMissing v_" + v + "))"
+	}
+	chk := func(v string) (string, *tr.ErrCall) {
+		return "checkErr(ds, ignoreMissing, err, " + v + ".FeatureID())",
+			&tr.ErrCall{Term: "(check_err a_nft a_ignoreMissing v_err v_" + v + ")", OkPat: "None", ErrPat: "Some v_e", ErrVar: "v_e"}
+	}
+	addAtoms := map[string]string{"actionType == osm.ActionDelete": "(atype_is_delete a_actionType)"}
+	addErr := map[string]*tr.ErrCall{}
+	for _, kv := range [][2]string{{"findPreviousNode", "n"}, {"findPreviousWay", "w"}, {"findPreviousRelation", "r"}} {
+		k, v := prev(kv[0], kv[1])
+		addAtoms[k] = v
+		ck, ce := chk(kv[1])
+		addErr[ck] = ce
+	}
+	fns = append(fns,
+		&tr.LFunc{Key: "addUpdate", Name: "gen_add_update", Result: "(list action + error)",
+			Params:     [][2]string{{"a_nft", "bool"}, {"a_ds", "datasource"}},
+			SkipParams: map[string]bool{"ctx": true, "ds": true},
+			OptionVars: map[string]bool{"o": true, "old": true},
+			Atoms:      addAtoms, ErrCalls: addErr,
+			Returns:    map[string]string{"actions, nil": "(inl a_actions)", "nil, e": "(inr v_e)"}},
+		// Change: the option functions are applied by the caller of the model (a_ign is their
+		// effect on IgnoreMissingChildren); an option returning an error is outside the model
+		&tr.LFunc{Key: "Change", Name: "gen_change", Result: "result",
+			Params:     [][2]string{{"a_nft", "bool"}, {"a_ds", "datasource"}, {"a_ign", "bool"}},
+			SkipParams: map[string]bool{"ctx": true, "ds": true, "opts": true},
+			OptionVars: map[string]bool{"o": true},
+			SkipStmts:  []string{"computeOpts := &core.Options{}", "for _, o := range opts {"},
+			Atoms: map[string]string{
+				"computeOpts.IgnoreMissingChildren": "a_ign",
+				"make([]osm.Action, 0, osmCount(change.Create)+osmCount(change.Modify)+osmCount(change.Delete))": "(@nil action)",
+			},
+			SumCalls: map[string]string{
+				"addUpdate(ctx, actions, change.Modify, osm.ActionModify, ds, ignoreMissing)": "(gen_add_update a_nft a_ds v_actions (gc_modify a_change) TModify v_ignoreMissing)",
+				"addUpdate(ctx, actions, change.Delete, osm.ActionDelete, ds, ignoreMissing)": "(gen_add_update a_nft a_ds v_actions (gc_delete a_change) TDelete v_ignoreMissing)",
+			},
+			Returns: map[string]string{"nil, err": "(RErr v_err)", "&osm.Diff{Actions: actions}, nil": "(ROk v_actions)"}})
 	text := []byte("(* GENERATED by /verif/translator (cmd/change, tr/loops.go) from /repo — do not edit. *)\n" +
-		"From Coq Require Import ZArith List Bool String.\nFrom Verif Require Import Base.Int64 C13.Model.\nImport ListNotations.\nOpen Scope Z_scope.\nOpen Scope string_scope.\n\n")
+		"From Coq Require Import ZArith List Bool String.\nFrom Verif Require Import Base.Int64 Base.GenLoop C13.Model C13.GenSupport.\nImport ListNotations.\nOpen Scope Z_scope.\nOpen Scope string_scope.\n\n")
 	text = append(text, tr.EmitLoopFuncs(p, cfg, fns)...)
-	text = append(text, []byte("(* literals and calls of Change / addUpdate (hand-modelled, tied by correspondence) *)\n")...)
-	text = append(text, tr.EmitLiterals(p, []string{"Change", "addUpdate"})...)
+	text = append(text, []byte("(* osmCount only sizes the action slice *)\n")...)
+	text = append(text, tr.EmitLiterals(p, []string{"osmCount"})...)
 	if err := tr.Emit(filepath.Join(out, "GenChange.v"), text); err != nil {
 		fmt.Fprintln(os.Stderr, err)
 		os.Exit(1)
